@@ -258,18 +258,9 @@ def _scan_rules(repo: Repo, L: Ledger):
                         ok_build = True
                         listname = call.func.value.id
     L.check(ok_build, "R3", f"{scan.short}:flatten", "flat list = every fragment of every scaffold (unfiltered)", "the scan's work list is not built from all fragments of all scaffolds without a filter", scan.loc())
-    fr = repo.find_method(repo.cls("Scaffold"), "fragments")
-    ok_fr = False
-    if fr is not None:
-        loops = [n for n in fr.node.body if isinstance(n, ast.For) and norm(n.iter) == "self.rows"]
-        if len(loops) == 1 and len(loops[0].body) == 1 and isinstance(loops[0].body[0], ast.If):
-            iff = loops[0].body[0]
-            t = iff.test
-            ok_fr = (
-                isinstance(t, ast.Call) and dotted(t.func) == "isinstance" and is_name(t.args[0], loops[0].target.id) and dotted(t.args[1]) == "Fragment"
-                and len(iff.body) == 1 and isinstance(iff.body[0], ast.Expr) and isinstance(iff.body[0].value, ast.Yield) and is_name(iff.body[0].value.value, loops[0].target.id) and not iff.orelse
-            )
-    L.check(ok_fr, "R3", "Scaffold.fragments", "yields exactly the Fragment rows", "Scaffold.fragments() no longer yields exactly the rows that are Fragments", fr.loc() if fr else "")
+    from .shared import check_row_iter
+
+    check_row_iter(repo, L, "R3", repo.cls("Scaffold"), "fragments", "Fragment", "row", "yields exactly the Fragment rows", "Scaffold.fragments() no longer yields exactly the rows that are Fragments")
 
     # R3b: loop ranges
     ex = _ScanExec(repo)
